@@ -71,6 +71,8 @@ C18Holds(e) ==
 \* every object that existed before is observed exactly as before
 C11Holds(e) == Len(e.dig) >= Len(dig) /\ SubSeq(e.dig, 1, Len(dig)) = dig
                /\ Len(e.dig) = Len(dig) + (IF e.res.outcome = "new" THEN 1 ELSE 0)
+               \* ... and a new object is what it was before the caller overwrote the arguments it was made from
+               /\ (e.res.outcome = "new" => e.dig[Len(e.dig)] = e.newdig)
 
 TInit == l = 0 /\ pool = <<>> /\ dig = <<>> /\ verdict = OK
 Consume(k) == LET e == Trace[k] IN
